@@ -180,6 +180,14 @@ func init() {
 			}
 			engine.RunSeq(r, engine.SeqSpec{Name: "c03-http", WorkerArgs: []string{"worker", "http-store"}, Alphabet: vOpsJSON(hs), Params: params, Depth: hdepth, Budget: budget})
 		}
+		{
+			// three operations the thorough tier found at depth 3 (fixed in cb4abf1), to their full depth in both tiers:
+			// an entity that drops its reference in one dataset and is deleted in another, then another referrer
+			sp := []VOp{{K: "txn", Parts: map[string][]VEnt{"A": {{"e1", refs[1]}}, "B": {{"e1", refs[5]}}}},
+				{K: "batch", DS: "A", Ents: []VEnt{{"e1", refs[6]}}}, {K: "batch", DS: "A", Ents: []VEnt{{"e2", poolIdx("r223")[0]}}},
+				{K: "batch", DS: "B", Ents: []VEnt{{"e2", poolIdx("psa")[0]}}}, {K: "batch", DS: "B", Ents: []VEnt{{"e1", refs[0]}}}}
+			engine.RunSeq(r, engine.SeqSpec{Name: "c03-spillover", WorkerArgs: []string{"worker", "store"}, Alphabet: vOpsJSON(sp), Params: params, Depth: 4, Budget: 60 * time.Second})
+		}
 		if r.Quick() {
 			small := vWriteAlphabet(vDS, []string{"e1"}, poolIdx("r2", "dr2", "pq2", "e", "r23", "r3", "r223"), poolIdx("r2", "dr2"), nil)
 			small = append(small, VOp{K: "batch", DS: "A", Ents: []VEnt{{"e2", refs[7]}}})
